@@ -2476,8 +2476,10 @@ struct Explorer {
     for (auto& c : r.cmds) {
       if (!c.finished || c.unreaped || c.output.empty()) continue;
       if (c.status == 130) return;
-      vector<string> want = Screen(c.output);
-      bool ends_nl = c.output.back() == '\n';
+      string shown = c.spec.msvc ? WithoutShowIncludesNotes(c.output) : c.output;
+      if (shown.empty()) continue;
+      vector<string> want = Screen(shown);
+      bool ends_nl = shown.back() == '\n';
       if (ends_nl && !want.empty() && want.back().empty()) want.pop_back();
       if (want.empty()) continue;
       // find `want` as consecutive lines; the last line may be followed by more text only if the output lacked its newline
@@ -2507,6 +2509,20 @@ struct Explorer {
     }
   }
 
+  /// What ninja shows of a deps=msvc tool's output: everything but the /showIncludes notes.
+  static string WithoutShowIncludesNotes(const string& vis) {
+    string f;
+    size_t pos = 0;
+    while (pos < vis.size()) {
+      size_t nl = vis.find('\n', pos);
+      if (nl == string::npos) nl = vis.size() - 1;
+      string line = vis.substr(pos, nl - pos + 1);
+      if (line.compare(0, 22, "Note: including file: ") != 0) f += line;
+      pos = nl + 1;
+    }
+    return f;
+  }
+
   void CheckTranscript(const Op& op, const RunResult& r, vector<Violation>* out) {
     if (r.hang || r.crashed || r.horizon) return;
     for (auto& e : r.events) if (e.kind == Event::kInterrupt) return;
@@ -2524,6 +2540,8 @@ struct Explorer {
     };
     bool verbose = find(op.flags.begin(), op.flags.end(), "-v") != op.flags.end();
     bool custom = op.cfg.env.count("NINJA_STATUS") || find(op.flags.begin(), op.flags.end(), "--status") != op.flags.end();
+    // --quiet: no status lines at all; command output, FAILED blocks and the console rule are as ever
+    bool quiet = find(op.flags.begin(), op.flags.end(), "--quiet") != op.flags.end();
     // 1+2: every finished command's block
     for (size_t ci = 0; ci < r.cmds.size(); ++ci) {
       const RunCmd& c = r.cmds[ci];
@@ -2557,7 +2575,7 @@ struct Explorer {
         }
         vis = f;
       }
-      string status_line = custom ? string() : "] " + desc + "\n";
+      string status_line = (custom || quiet) ? string() : "] " + desc + "\n";
       string failed_block = c.status != 0 ? "FAILED: [code=" + to_string(c.status) + "] " + outs + "\n" + c.spec.line + "\n" : string();
       string header = status_line + failed_block;
       // dumb terminals: an empty line is inserted when the previous output did not end in a newline
@@ -2567,13 +2585,16 @@ struct Explorer {
       if (c.console) {
         // status line printed when it started; its own output follows directly
         string want = "] " + desc + "\n" + c.output, want_nl = "] " + desc + "\n\n" + c.output;
-        if (!custom && T.find(want) == string::npos && T.find(want_nl) == string::npos)
+        if (quiet) {
+          if (!c.output.empty() && T.find(c.output) == string::npos)
+            bad("console-output-broken-up", "console command '" + c.spec.id() + "': its output does not appear whole: something was printed into it", c.spec.id());
+        } else if (!custom && T.find(want) == string::npos && T.find(want_nl) == string::npos)
           bad("console-output-not-directly-after-status", "console command '" + c.spec.id() + "': something was printed between its status line and its output", c.spec.id());
         continue;
       }
       if (vis.empty()) {
         // (status lines of silent commands may be coalesced while a console command owns the terminal)
-        if (!custom && !any_console && T.find(header) == string::npos && T.find(header_nl) == string::npos)
+        if (!custom && !(quiet && c.status == 0) && !any_console && T.find(header) == string::npos && T.find(header_nl) == string::npos)
           bad("status-line-missing", "no status line" + string(c.status ? "/FAILED block" : "") + " for '" + c.spec.id() + "'", c.spec.id());
         continue;
       }
@@ -2589,9 +2610,35 @@ struct Explorer {
       // (in a dumb terminal ninja puts an empty line before a block when the previous output did not
       // end in a newline; that does not separate the block from its status line in any harmful way)
       auto ends_with_at = [&](size_t pos, const string& h) { return pos >= h.size() && T.compare(pos - h.size(), h.size(), h) == 0; };
-      if (!custom && !ends_with_at(first, header) && !ends_with_at(first, header + "\n") && !ends_with_at(first, header_nl))
+      if (!custom && !(quiet && c.status == 0) && !ends_with_at(first, header) && !ends_with_at(first, header + "\n") && !ends_with_at(first, header_nl))
         bad("output-not-after-its-status-line", "the output of '" + c.spec.id() + "' is not directly preceded by its status line" +
             (c.status ? " and FAILED block" : ""), c.spec.id());
+    }
+    // 2b: "While a console-pool command owns the terminal, other commands' output is held back and shown afterwards": what
+    // a command printed that finished while a console command ran appears after that console command's own output (which
+    // the simulated tool writes when it ends)
+    {
+      vector<int> start_ev(r.cmds.size(), -1), fin_ev(r.cmds.size(), -1);
+      for (size_t i = 0; i < r.events.size(); ++i) {
+        if (r.events[i].kind == Event::kStart) start_ev[r.events[i].cmd] = (int)i;
+        if (r.events[i].kind == Event::kFinish) fin_ev[r.events[i].cmd] = (int)i;
+      }
+      for (size_t ci = 0; ci < r.cmds.size(); ++ci) {
+        const RunCmd& c = r.cmds[ci];
+        if (!c.console || !c.finished || c.unreaped || c.output.empty() || fin_ev[ci] < 0) continue;
+        size_t cpos = T.find(c.output);
+        if (cpos == string::npos) continue;
+        for (size_t ni = 0; ni < r.cmds.size(); ++ni) {
+          const RunCmd& n = r.cmds[ni];
+          if (n.console || !n.finished || n.unreaped || n.output.empty() || n.spec.msvc) continue;
+          if (!(fin_ev[ni] > start_ev[ci] && fin_ev[ni] < fin_ev[ci])) continue;
+          string nvis = StripAnsi(n.output);
+          size_t npos = T.find(nvis);
+          if (npos != string::npos && npos < cpos)
+            bad("output-shown-while-console-owned", "'" + n.spec.id() + "' finished while the console command '" + c.spec.id() +
+                "' owned the terminal, and its output was shown before that command had ended", n.spec.id());
+        }
+      }
     }
     // 3: counters
     vector<array<long, 5>> cnt;   // s f t r u  (default format: f t only)
